@@ -45,6 +45,8 @@ type asmCase struct {
 	// noBackEdge: additionally no loop back edge may be reachable (the fault
 	// is in the element currently iterated; the iteration must not continue)
 	noBackEdge bool
+	// force: known functions analysed in place for this case
+	force []string
 }
 
 func isAccept(rs retSite) bool { return rs.ec.Kind == "nil" }
@@ -82,6 +84,12 @@ func (c *Check) runCases(rule string, fnName string, cases []asmCase) {
 		a := NewAnalysis(c.P, fn)
 		a.AtomHook = cs.hook
 		a.Init = cs.init
+		if len(cs.force) > 0 {
+			a.ForceInline = map[string]bool{}
+			for _, f := range cs.force {
+				a.ForceInline[f] = true
+			}
+		}
 		a.Run()
 		if len(a.Undecided) > 0 {
 			c.undecided(rule, fnName, cs.name, c.P.Pos(fn.Pos()), "value-set analysis undecided: "+a.Undecided[0])
@@ -224,14 +232,22 @@ func checkC02(c *Check) {
 					"the multicast test is made on AddrFrom4(big-endian octets of the OPEN's bgpID); got "+trunc(args[0].Key, 80))
 			}
 		}
-		c.floor("C02.1 identifier-tested", n, 1, "IsMulticast tests in validate")
+		if n == 0 {
+			c.ok("C02.1 identifier-tested", "openMessage.validate", "IsMulticast argument", "-", "no library multicast test: the identifier is tested arithmetically (covered by the multicast / unicast cases on its range)")
+		}
 	}
 
 	u8 := isRange(0, 255)
 	u16 := isRange(0, 65535)
 	okVersion := rangeHook(ldVersion, isConst(4))
 	okHold := rangeHook(ldHold, isConst(0).Union(isRange(3, 65535)))
-	notMulticast := rangeHook(isMulticast, isConst(0))
+	// multicast is a property of the identifier: 224.0.0.0/4. Both the library
+	// test and the identifier's range are pinned, so that the test may be
+	// written either way (IsMulticast on the address, or arithmetic on the id)
+	mcSet := isRange(0xE0000000, 0xEFFFFFFF)
+	isBgpID := func(e *Expr) bool { return isFieldRead(e, fID) }
+	notMulticast := hooks(rangeHook(isMulticast, isConst(0)), rangeHook(isBgpID, isRange(0, 0xFFFFFFFF).Minus(mcSet)))
+	multicast := hooks(rangeHook(isMulticast, isConst(1)), rangeHook(isBgpID, mcSet))
 	asnPlainMatch := hooks(rangeHook(ldAsn, u16.Minus(isConst(asTrans))), relHook(ldAsn, pRemoteAS, "=="))
 	asnTrans := rangeHook(ldAsn, isConst(asTrans))
 	noCap65 := rangeHook(capCode, u8.Minus(isConst(cap65)))
@@ -257,7 +273,7 @@ func checkC02(c *Check) {
 	c.runCases("C02.1 faulty-open-rejected", "openMessage.validate", []asmCase{
 		{name: "version != 4", hook: rangeHook(ldVersion, u8.Minus(isConst(4))), forbid: forbidAccept},
 		{name: "hold time in {1,2}", hook: rangeHook(ldHold, isRange(1, 2)), forbid: forbidAccept},
-		{name: "BGP identifier multicast", hook: rangeHook(isMulticast, isConst(1)), forbid: forbidAccept},
+		{name: "BGP identifier multicast", hook: multicast, forbid: forbidAccept},
 		{name: "same AS and identifier equal to local", hook: hooks(relHook(pLocalAS, pRemoteAS, "=="), relHook(ldID, pLocalID, "==")), forbid: forbidAccept},
 		{name: "2-octet AS != remote AS and != AS_TRANS", hook: hooks(rangeHook(ldAsn, u16.Minus(isConst(asTrans))), relHook(ldAsn, pRemoteAS, "!=")), forbid: forbidAccept},
 		{name: "AS_TRANS without 4-octet-AS capability", hook: hooks(asnTrans, noCap65), forbid: forbidAccept},
@@ -362,6 +378,21 @@ func checkC02(c *Check) {
 									}
 								}
 							}
+						}
+					}
+				}
+				if !ok && d != nil {
+					// any construction of the two octets 0x00 0x04
+					if lay, lerr := rs.rs.State.layoutOf(d, 0); lerr == "" {
+						isK := func(v *Expr, k int64) bool {
+							cv, isC := rs.rs.State.rangeOf(v).IsConst()
+							return v != nil && isC && cv == k
+						}
+						switch {
+						case len(lay) == 1 && lay[0].Kind == "be16" && isK(lay[0].Val, 4):
+							ok = true
+						case len(lay) == 2 && lay[0].Kind == "byte" && lay[1].Kind == "byte" && isK(lay[0].Val, 0) && isK(lay[1].Val, 4):
+							ok = true
 						}
 					}
 				}
